@@ -9,7 +9,9 @@ META = dict(
     level_text="Machine-checked for every cluster size other than the degenerate 1 and every adversarial event list: (a) a node's commit index never decreases, "
                "(b) an entry at a committed index of a node is never removed or replaced there. (c) agreement between nodes is machine-checked FALSE of the faithful model: "
                "witness histories with a single leader per term show three independent causes (Append accepted without a previous-entry check; leader commits an old-term entry by counting replicas; a voter keeps its old term and acknowledges the old leader's Append), "
-               "plus the two election defects of C27; all are reproduced on the real code and recorded as known findings. The model is tied to /repo on every run by comparing "
+               "plus the two election defects of C27; all are reproduced on the real code and recorded as known findings. The model carries the revision of the election code "
+               "(C27): the check reads raft.rs and compares with the model of that revision; the first two causes are machine-checked for EVERY revision, the third and the election "
+               "defects only before the C27 repairs - on a tree with the repairs their classes are no longer accepted as known findings. The model is tied to /repo on every run by comparing "
                "complete cluster states after every event of seeded adversarial event lists; any disagreement of committed entries outside the listed classes, and any commit decrease "
                "or replaced committed entry at all, is a VIOLATION.",
     design_ref="DESIGN.md §5 C28, C27–C30 common",
